@@ -844,7 +844,29 @@ def r16_9(ctx, prog, crate):
               "natural_cmp is not the lexicographic comparison of the token sequences of exactly `a` and exactly `b`", b.where(0))
 
 
+def r16_10(ctx, prog, crate):
+    """--sort and --sortr name one setting: the reader in config_with_args looks at `sortr` first and at `sort` only when
+    `sortr` is absent, which is the documented behaviour (the flag given last decides) only because the command line declares
+    the two as overriding each other - without that relation both survive parsing and --sortr wins wherever it stands."""
+    from rules.C15 import defined_candidates, str_consts
+    cmd = prog.body("cli::command", crate)
+    if not ctx.anchor("R16.10", "cli::command", 1 if cmd else 0, 1):
+        return
+    ctx.saw(cmd)
+    rel = set()
+    for c in cmd.live_calls():
+        n = c.callee.rsplit("::", 1)[-1]
+        if c.callee.startswith("clap::") and n in ("overrides_with", "overrides_with_all", "conflicts_with", "conflicts_with_all"):
+            for s_ in defined_candidates(cmd, c):
+                for o_ in (str_consts(cmd.prov.op_src(c.args[1])) if len(c.args) > 1 else set()):
+                    rel.add(frozenset((s_, o_)))
+    ctx.check(frozenset(("sort", "sortr")) in rel, "R16.10", ["sort/sortr", "declared-as-one-setting"],
+              "the command line does not relate --sort and --sortr (overrides_with): both values survive parsing and the reader "
+              "prefers --sortr wherever it stands", cmd.where(0))
+
+
 def run(ctx, prog, crate):
+    r16_10(ctx, prog, crate)
     r16_9(ctx, prog, crate)
     r16_8(ctx, prog, crate)
     r16_7(ctx, prog, crate)
